@@ -123,13 +123,15 @@ func buildParFailers(e *Env) {
 				parFailers = append(parFailers, u)
 			}
 		}
+		seenWhat := map[string]bool{}
 		for _, s := range lenSites(t) {
-			if s.what == "count" && s.max == 0xFFFF && (t.Pkg == "sample" || t.Pkg == "sse") {
-				g := &gen.Gen{S: e.S, C: e.C, R: gen.NewRng(e.Seed, "C20", "failer-long", t.QName), O: &gen.Opts{Lens: []int{1}, StrLens: []int{2}}}
+			// one refusal of each kind per type: too many elements, a text too long, one list element too long
+			if s.max <= 0xFFFF && !seenWhat[s.what] && (t.Pkg == "sample" || t.Pkg == "sse" || t.Pkg == "bjse") {
+				seenWhat[s.what] = true
+				g := &gen.Gen{S: e.S, C: e.C, R: gen.NewRng(e.Seed, "C20", "failer-long", t.QName, s.what), O: &gen.Opts{Lens: []int{1}, StrLens: []int{2}}}
 				v := g.Value(t)
 				setLen(e, t, v, s, s.max+1, g)
 				parFailers = append(parFailers, v)
-				break
 			}
 		}
 	}
@@ -359,15 +361,18 @@ func c20FailureBursts(e *Env, cs []pcase, mode string) {
 		byType[ty] = append(byType[ty], i)
 	}
 	const G = 32
-	burst := e.N(25, 200)
+	burst := e.N(20, 200)
 	if mode == "race-workload-child" {
-		burst = e.N(8, 60)
+		burst = e.N(6, 60)
 	}
 	var bursts, calls int64
-	for _, f := range parFailers {
+	for fi, f := range parFailers {
 		idx := byType[reflect.TypeOf(f)]
 		if len(idx) == 0 {
 			continue
+		}
+		if mode == "race-workload-child" && !e.Thorough && fi%3 != int(e.Seed%3+3)%3 {
+			continue // the race build is 5-10x slower: a third of the failing values per run (which third depends on the seed)
 		}
 		bursts++
 		bad := make([]string, G)
@@ -423,7 +428,7 @@ func c20TableHammer(e *Env, mode string) {
 	r := e.R
 	iters := e.N(2500, 40000)
 	if mode == "race-workload-child" {
-		iters = e.N(400, 6000)
+		iters = e.N(200, 6000)
 	}
 	const G = 16
 	var tables, calls int64
@@ -529,7 +534,7 @@ func c20Child(e *Env, mode string) {
 			ops = e.N(300, 3000)
 		}
 		if mode == "race-workload-child" {
-			ops = e.N(250, 2500)
+			ops = e.N(180, 2500)
 		}
 		cs := buildParallelCases(e, per, false)
 		before := tableSnapshot(e)
